@@ -1214,6 +1214,29 @@ fn run_c01(args: &Args, out: &mut Out) {
             c01_case(out, &r, "boundary", model);
         }
     }
+    // clearing a policy through the public API (set(ty, None)) must give exactly the value that
+    // never had it set: build every mask by setting all six policies and clearing the others
+    for mask in 0..64u32 {
+        let direct = gen_policies_mask(&mut rng, mask);
+        let mut cleared = Policies::new();
+        for t in POLICY_TYPES.iter() {
+            cleared.set(*t, Some(direct.get(*t).unwrap_or(0x55)));
+        }
+        for (i, t) in POLICY_TYPES.iter().enumerate() {
+            if mask & (1 << i) == 0 {
+                cleared.set(*t, None);
+            }
+        }
+        out.oracle_evaluations += 1;
+        let rt = guarded(|| Policies::from_bytes(&cleared.to_bytes())).ok().and_then(|r| r.ok());
+        if cleared != direct || rt.as_ref() != Some(&cleared) {
+            out.oracle_fail(
+                "policy-cleared-by-set-none-differs-from-never-set",
+                &format!("mask {mask:#x}: Policies built by set(Some) x6 then set(None) != Policies with only the mask set, or does not round-trip (raw values {:?})", policies_raw_values(&cleared)),
+                serde_json::json!({"kind":"policies-clear","mask":mask}),
+            );
+        }
+    }
     // all 64 policy masks, several value vectors each
     for mask in 0..64u32 {
         for _ in 0..args.scale(3, 40) {
